@@ -89,6 +89,19 @@ theorem autoPi_stationary (n : Nat) (hn : 1 ≤ n) (lam : Nat → ℝ) (hl : ∀
   · unfold autoPi; rw [← hS, ← Finset.sum_div, ← hS]; exact div_self (ne_of_gt hSpos)
   · intro i hi; unfold autoPi; rw [← hS]; exact div_pos (hw i hi) hSpos
 
+theorem sumL_replicate (n : Nat) (a : ℝ) : sumL (List.replicate n a) = n * a := by
+  rw [sumL_eq_sum, List.sum_replicate, nsmul_eq_mul]
+
+theorem autoEq_replicate (n : Nat) (hn : 1 ≤ n) (c : ℝ) (hc : c < 1) :
+    autoEq (List.replicate n c) = List.replicate n (1 / (n : ℝ)) := by
+  unfold autoEq
+  simp only [List.map_replicate, sumL_replicate, ScalarReal.one_eq, sub_eq, div_eq]
+  congr 1
+  have h1 : (1 - c) ≠ 0 := by linarith
+  have h3 : (1 : ℝ) ≤ n := by exact_mod_cast hn
+  have h2 : (n : ℝ) ≠ 0 := by linarith
+  field_simp
+
 /-! ### the lazily cached matrix -/
 
 inductive AutoOp (α : Type) where
